@@ -2,22 +2,25 @@
 # tools/seedrun.sh <seeded-id> ...   — for each kept seeded change: apply it to /repo, run the property's quick
 # check from /verif against /repo itself, undo the change straight afterwards, and record the outcome in
 # seeded/<id>/detection.json (plus the minimised replay file the check produced).
+# VROOT (default /verif) names the copy of /verif whose checks are run: a frozen snapshot (rsync of a commit) lets
+# the detection runs proceed while /verif itself is being edited; results are always recorded under /verif/seeded.
 set -u
+VROOT="${VROOT:-/verif}"
 cd /verif
 for id in "$@"; do
   d="seeded/$id"
   prop=$(python3 -c "import json;print(json.load(open('$d/meta.json'))['property'])")
   if [ -n "$(git -C /repo status --porcelain)" ]; then echo "SEEDRUN $id: /repo is not clean, refusing"; exit 2; fi
-  before=$(ls replays 2>/dev/null | sort)
+  before=$(ls "$VROOT/replays" 2>/dev/null | sort)
   git -C /repo apply "/verif/$d/patch.diff" || { echo "SEEDRUN $id: patch does not apply"; continue; }
   start=$(date +%s)
-  bin/check "$prop" --tier quick > "$d/check_output.txt" 2>&1
+  "$VROOT/bin/check" "$prop" --tier quick > "$d/check_output.txt" 2>&1
   rc=$?
   end=$(date +%s)
   git -C /repo checkout -- . ; git -C /repo clean -fdq
-  new=$(comm -13 <(echo "$before") <(ls replays | sort))
+  new=$(comm -13 <(echo "$before") <(ls "$VROOT/replays" | sort))
   first=""
-  for f in $new; do [ -z "$first" ] && first="$f" && cp "replays/$f" "$d/replay.json"; rm -f "replays/$f"; done
+  for f in $new; do [ -z "$first" ] && first="$f" && cp "$VROOT/replays/$f" "$d/replay.json"; rm -f "$VROOT/replays/$f"; done
   cls=$(grep -m1 '  class:' "$d/check_output.txt" | sed 's/^ *class: //' | cut -c1-160)
   nv=$(grep -c '^VIOLATION' "$d/check_output.txt")
   python3 - "$d" "$rc" "$nv" "$((end-start))" "$cls" <<'P'
